@@ -164,7 +164,7 @@ def run(rec, tier, seed):
     ns = campaign.NCPU
     campaign.parallel(rec, _shard_exh, [(s, ns) for s in range(ns)])
     rec.exhaustive.append(f"{len(BODIES)} early-exit/printing bodies x {len(WRAPS)}^2 enclosing constructs")
-    n = 200 if quick else 20000
+    n = 500 if quick else 20000
     campaign.parallel(rec, _shard_hyp, [(seed * 1000 + i, n) for i in range(ns)])
 
 
